@@ -89,6 +89,10 @@ pub struct ShutdownScript {
     pub second: Option<(u64, Mode)>,
     /// a task awaiting a clone of the handle from the start
     pub waiter: bool,
+    /// a clone of the handle (taken before the call) is awaited for the first time this many ns AFTER
+    /// the shutdown call has returned, i.e. when the server is already gone
+    #[serde(default)]
+    pub late_waiter: Option<u64>,
 }
 
 #[derive(Serialize, Deserialize, Clone, Debug, PartialEq)]
@@ -159,6 +163,8 @@ struct Run {
     second_ret: Option<(u64, u64)>,
     second_call: Option<(u64, u64)>,
     waiter_ret: Option<(u64, u64)>,
+    /// (instant the late waiter started awaiting, instant it resolved)
+    late_waiter: Option<(u64, Option<u64>)>,
     unexpected_panics: Vec<String>,
     /// connection id → seq at which accept() handed it out
     os_accepted: BTreeMap<usize, u64>,
@@ -648,6 +654,7 @@ async fn driver(script: Script) {
                     })
                 }));
             }
+            let late_handle = sd.late_waiter.map(|_| handle.clone());
             let s = slog!("shutdown({:?}) called", sd.mode);
             let t = sched::now_ns();
             run_mut(|r| r.t_call = Some((s, t)));
@@ -656,6 +663,21 @@ async fn driver(script: Script) {
                 let s = slog!("shutdown resolved");
                 let t = sched::now_ns();
                 run_mut(|r| r.t_ret = Some((s, t)));
+                if let (Some(delay), Some(h)) = (sd.late_waiter, late_handle) {
+                    aux.push(sched::spawn("late-waiter", false, move || {
+                        Box::pin(async move {
+                            tokio::time::sleep(Duration::from_nanos(delay)).await;
+                            slog!("a clone of the handle is awaited after the server has stopped");
+                            let t0 = sched::now_ns();
+                            run_mut(|r| r.late_waiter = Some((t0, None)));
+                            if tokio::time::timeout(Duration::from_secs(3000), h).await.is_ok() {
+                                slog!("late await resolved");
+                                let t1 = sched::now_ns();
+                                run_mut(|r| r.late_waiter = Some((t0, Some(t1))));
+                            }
+                        })
+                    }));
+                }
             } else {
                 slog!("shutdown did not resolve within 3000 s");
             }
@@ -768,6 +790,14 @@ fn evaluate(script: &Script, run: &Run, out: &mut RunOut) {
     }
     // 5. awaiting the handle / a second call resolve
     if let Some((_, ret_ns)) = run.t_ret {
+        if let Some((t0, t1)) = run.late_waiter {
+            out.count("probe_handle_awaited_after_stop", 1);
+            match t1 {
+                None => out.violations.push(viol("await-handle-resolves", "late waiter never resolved".into(), "a clone of the handle, awaited for the first time after the shutdown call had returned, never resolved".into())),
+                Some(t1) if t1 - t0 > SLACK_NS => out.violations.push(viol("await-handle-resolves", "late waiter late".into(), format!("a clone of the handle awaited after the server had stopped took {} ns to resolve", t1 - t0))),
+                _ => {}
+            }
+        }
         if sd.waiter {
             match run.waiter_ret {
                 None => out.violations.push(viol("await-handle-resolves", "waiter never resolved".into(), "awaiting a clone of the handle never resolved".into())),
@@ -1145,6 +1175,7 @@ impl Sim for SrvSim {
                 mode,
                 second: if rng.chance(1, 6) { Some((rng.below(40_000), gen_mode(rng))) } else { None },
                 waiter: rng.chance(1, 3),
+                late_waiter: None,
             })
         };
         let timeout_ms = match &shutdown {
@@ -1255,6 +1286,26 @@ impl Sim for SrvSim {
             };
             sc.accept_errors = Some((at.saturating_sub(*rng.pick(&[0u64, 0, 1_000_000])), *rng.pick(&[1u32, 40, 300, 1000])));
         }
+        if let Some(sd) = sc.shutdown.as_mut() {
+            if rng.chance(1, 4) {
+                sd.late_waiter = Some(*rng.pick(&[0u64, 1_000, 1_000_000, 50_000_000]));
+            }
+        }
+        // ... and one run in four hundred keeps MANY connections alive on one worker: 257-262 requests
+        // mid-handler when graceful shutdown is called, and a few more that arrived just before the call
+        if rng.chance(1, 400) {
+            let n = 257 + rng.usize(0, 5);
+            let hold = rng.range(80, 200);
+            let mut conns: Vec<ConnScript> = (0..n)
+                .map(|i| ConnScript { when: When::At { ns: i as u64 * 5_000 }, kind: ConnKind::Full, handler_ms: hold, fault: ConnFault::None, cap_in: 65_536, cap_out: 65_536, listener: 0 })
+                .collect();
+            let t_more = n as u64 * 5_000 + 1_000_000;
+            for j in 0..rng.usize(2, 4) {
+                conns.push(ConnScript { when: When::At { ns: t_more + j as u64 * 5_000 }, kind: ConnKind::Full, handler_ms: rng.range(0, 2), fault: ConnFault::None, cap_in: 65_536, cap_out: 65_536, listener: 0 });
+            }
+            let shutdown = Some(ShutdownScript { at_ns: t_more + 3_000_000, mode: Mode::Graceful { timeout_ms: 60_000 }, second: None, waiter: false, late_waiter: None });
+            return Script { workers: 1, listeners: 1, conns, shutdown, weights: Vec::new(), preempt_den: 1000, net_preempt: false, accept_errors: None };
+        }
         // ... and one run in fifty is a QUEUED BURST: every worker is stuck in a blocking handler while
         // 8-14 complete requests per worker pile up in its inbox, and graceful shutdown is called before
         // any of them has been started — each of them had been received before the call
@@ -1268,7 +1319,7 @@ impl Sim for SrvSim {
             for _ in 0..q {
                 conns.push(ConnScript { when: When::At { ns: 1_000_000 + rng.below(1_000_000) }, kind: ConnKind::Full, handler_ms: rng.range(0, 2), fault: ConnFault::None, cap_in: 65_536, cap_out: 65_536, listener: 0 });
             }
-            let shutdown = Some(ShutdownScript { at_ns: 5_000_000 + rng.below(5_000_000), mode: Mode::Graceful { timeout_ms: *rng.pick(&[5_000, 10_000, 60_000]) }, second: None, waiter: rng.chance(1, 3) });
+            let shutdown = Some(ShutdownScript { at_ns: 5_000_000 + rng.below(5_000_000), mode: Mode::Graceful { timeout_ms: *rng.pick(&[5_000, 10_000, 60_000]) }, second: None, waiter: rng.chance(1, 3), late_waiter: None });
             return Script { workers, listeners: 1, conns, shutdown, weights: Vec::new(), preempt_den: *rng.pick(&[4, 8, 1000]), net_preempt: false, accept_errors: None };
         }
         sc
@@ -1316,6 +1367,11 @@ impl Sim for SrvSim {
             if sd.second.is_some() {
                 let mut t = s.clone();
                 t.shutdown.as_mut().unwrap().second = None;
+                c.push(t);
+            }
+            if sd.late_waiter.is_some() {
+                let mut t = s.clone();
+                t.shutdown.as_mut().unwrap().late_waiter = None;
                 c.push(t);
             }
             if sd.waiter {
